@@ -738,7 +738,7 @@ DLLIMPORT int cfg_parse_boolean(const char *s)
 	return CFG_FAIL;
 }
 
-static void cfg_init_defaults(cfg_t *cfg)
+static int cfg_init_defaults(cfg_t *cfg)
 {
 	int i;
 
@@ -820,29 +820,32 @@ static void cfg_init_defaults(cfg_t *cfg)
 					 * the initialization of the default value could be
 					 * inconsistent or empty. What to do? It's a
 					 * programming error and not an end user input
-					 * error. Lets print a message and abort...
+					 * error. Lets print a message and fail, the
+					 * caller gets no (half-initialized) context.
 					 */
 					fprintf(stderr, "Parse error in default value '%s'"
 						" for option '%s'\n", cfg->opts[i].def.parsed, cfg->opts[i].name);
 					fprintf(stderr, "Check your initialization macros and the" " libConfuse documentation\n");
-					abort();
+					return CFG_FAIL;
 				}
 			} else {
+				int rc = CFG_SUCCESS;
+
 				switch (cfg->opts[i].type) {
 				case CFGT_INT:
-					cfg_opt_setnint(&cfg->opts[i], cfg->opts[i].def.number, 0);
+					rc = cfg_opt_setnint(&cfg->opts[i], cfg->opts[i].def.number, 0);
 					break;
 
 				case CFGT_FLOAT:
-					cfg_opt_setnfloat(&cfg->opts[i], cfg->opts[i].def.fpnumber, 0);
+					rc = cfg_opt_setnfloat(&cfg->opts[i], cfg->opts[i].def.fpnumber, 0);
 					break;
 
 				case CFGT_BOOL:
-					cfg_opt_setnbool(&cfg->opts[i], cfg->opts[i].def.boolean, 0);
+					rc = cfg_opt_setnbool(&cfg->opts[i], cfg->opts[i].def.boolean, 0);
 					break;
 
 				case CFGT_STR:
-					cfg_opt_setnstr(&cfg->opts[i], cfg->opts[i].def.string, 0);
+					rc = cfg_opt_setnstr(&cfg->opts[i], cfg->opts[i].def.string, 0);
 					break;
 
 				case CFGT_FUNC:
@@ -853,6 +856,9 @@ static void cfg_init_defaults(cfg_t *cfg)
 					cfg_error(cfg, "internal error in cfg_init_defaults(%s)", cfg->opts[i].name);
 					break;
 				}
+
+				if (rc != CFG_SUCCESS)
+					return CFG_FAIL;
 			}
 
 			/* The default value should only be returned if no value
@@ -863,10 +869,13 @@ static void cfg_init_defaults(cfg_t *cfg)
 			cfg->opts[i].flags |= CFGF_RESET;
 			cfg->opts[i].flags &= ~CFGF_MODIFIED;
 		} else if (!is_set(CFGF_MULTI, cfg->opts[i].flags)) {
-			cfg_setopt(cfg, &cfg->opts[i], NULL);
+			if (!cfg_setopt(cfg, &cfg->opts[i], NULL))
+				return CFG_FAIL;
 			cfg->opts[i].flags |= CFGF_DEFINIT;
 		}
 	}
+
+	return CFG_SUCCESS;
 }
 
 /* Convert value according to the type of opt and store the result in val */
@@ -1012,14 +1021,20 @@ static int cfg_setopt_value(cfg_t *cfg, cfg_opt_t *opt, const char *value, cfg_v
 				return CFG_FAIL;
 			}
 
+			if (!is_set(CFGF_DEFINIT, opt->flags) && cfg_init_defaults(sec) != CFG_SUCCESS) {
+				cfg_free(sec);
+				return CFG_FAIL;
+			}
+
 			if (val->section) {
 				val->section->path = NULL; /* Global search path */
 				cfg_free(val->section);
 			}
 			val->section = sec;
+		} else if (!is_set(CFGF_DEFINIT, opt->flags)) {
+			if (cfg_init_defaults(val->section) != CFG_SUCCESS)
+				return CFG_FAIL;
 		}
-		if (!is_set(CFGF_DEFINIT, opt->flags))
-			cfg_init_defaults(val->section);
 		break;
 
 	case CFGT_BOOL:
@@ -1919,7 +1934,10 @@ DLLIMPORT cfg_t *cfg_init(cfg_opt_t *opts, cfg_flag_t flags)
 	bindtextdomain(PACKAGE, LOCALEDIR);
 #endif
 
-	cfg_init_defaults(cfg);
+	if (cfg_init_defaults(cfg) != CFG_SUCCESS) {
+		cfg_free(cfg);
+		return NULL;
+	}
 
 	return cfg;
 }
